@@ -1,6 +1,7 @@
 #!/bin/bash
-# trymutant.sh <patch> <property> : apply a patch to a scratch copy of /repo and run one check with replay
+# trymutant.sh <patch> <property> [govc-binary] [extra govc args...] : apply a patch to a scratch copy of /repo and run one check with replay
 d=$(mktemp -d); cp -r /repo $d/repo; rm -rf $d/repo/.git
 (cd $d/repo && patch -s -p1 < "$(realpath "$1")") || { echo patch failed; rm -rf $d; exit 2; }
-GOFLAGS=-mod=mod GOPROXY=off GOSUMDB=off GOTOOLCHAIN=local /verif/bin/govc check --property "$2" --repo $d/repo --no-evidence 2>&1 | grep "VIOLATION\|^obligation\|^property" | cut -c1-260
+bin=${3:-/verif/bin/govc}
+GOFLAGS=-mod=mod GOPROXY=off GOSUMDB=off GOTOOLCHAIN=local $bin check --property "$2" --repo $d/repo --no-evidence "${@:4}" 2>&1 | grep "VIOLATION\|^obligation\|^property" | cut -c1-260
 rm -rf $d
